@@ -91,6 +91,13 @@ impl LocalFunction {
                 InstrLocId::new(pos as u32)
             };
             validator.op(pos, &inst)?;
+            if ctx.controls.is_empty() {
+                // The function's outermost frame has already been closed by
+                // an `end`. wasmparser only reports such trailing operators
+                // at the next `end` (or at `finish`), but there is no control
+                // frame left to attach this instruction to.
+                anyhow::bail!("operators remaining after end of function");
+            }
             append_instruction(&mut ctx, inst, loc);
             instruction_mapping.insert(pos - code_address_offset, loc);
         }
